@@ -110,17 +110,24 @@ Proof. exact map_insertion_order_irrelevant. Qed.
 Print Assumptions C09_map_insertion_order_irrelevant.
 
 (* TimeoutQC.map: the model's BTreeMap is that sorted map for the transcribed derived Ord of
-   ReplicaTimeout; the order laws of that transcription are the premises *)
-Theorem C09_timeoutqc_insertion_order_irrelevant :
-  (forall a b, cmp_timeout b a = CompOpp (cmp_timeout a b)) ->
-  (forall a b c, cmp_timeout a b = Lt -> cmp_timeout b c = Lt -> cmp_timeout a c = Lt) ->
-  (forall a b, cmp_timeout a b = Eq -> a = b) ->
-  forall l l', Permutation l l' -> pairwise _ _ cmp_timeout l -> tmap_of_list l = tmap_of_list l'.
-Proof.
-  intros H1 H2 H3 l l' Hp Hd. rewrite !tmap_of_list_is_of_list.
-  apply map_insertion_order_irrelevant; assumption.
-Qed.
+   ReplicaTimeout, which is a strict total order *)
+Theorem C09_timeout_ord_total :
+  (forall a b, cmp_timeout b a = CompOpp (cmp_timeout a b)) /\
+  (forall a b c, cmp_timeout a b = Lt -> cmp_timeout b c = Lt -> cmp_timeout a c = Lt) /\
+  (forall a b, cmp_timeout a b = Eq -> a = b).
+Proof. exact ord_timeout. Qed.
+Print Assumptions C09_timeout_ord_total.
+
+(* entries with pairwise different keys (or identical entries), inserted in any order: same map,
+   hence (build is a function of the map) the same bytes *)
+Theorem C09_timeoutqc_insertion_order_irrelevant : forall l l',
+  Permutation l l' -> pairwise _ _ cmp_timeout l -> tmap_of_list l = tmap_of_list l'.
+Proof. exact timeoutqc_insertion_order_irrelevant. Qed.
 Print Assumptions C09_timeoutqc_insertion_order_irrelevant.
+
+Theorem C09_timeoutqc_map_sorted : forall l, sorted _ _ cmp_timeout (tmap_of_list l).
+Proof. exact tmap_of_list_sorted. Qed.
+Print Assumptions C09_timeoutqc_map_sorted.
 
 (* ---- full statement (not proved in full; see the `partial` note of the evidence) ---- *)
 (* For every modelled type: the bytes written by encode are read back to the same dynamic
